@@ -59,6 +59,7 @@ type rnode struct {
 	up     bool
 	cut    bool
 	starts int
+	wantUp bool // the operator wants this node running: a refused start is retried at the next timeline step
 }
 
 type rworld struct {
@@ -325,6 +326,7 @@ func c13RestartBody(t *testing.T, s *sim.Scn, o *sim.Outcome) {
 		return true
 	}
 	for _, rn := range rw.nodes {
+		rn.wantUp = true
 		rw.start(rn)
 		if o.V != nil {
 			stopAll(-1)
@@ -340,6 +342,7 @@ func c13RestartBody(t *testing.T, s *sim.Scn, o *sim.Outcome) {
 		case "tx":
 			inject(1 + int(op.B%3))
 		case "stop", "kill":
+			rn.wantUp = false
 			if !rw.stop(rn, op.K == "kill", i) {
 				if o.V != nil {
 					stopAll(i)
@@ -348,6 +351,7 @@ func c13RestartBody(t *testing.T, s *sim.Scn, o *sim.Outcome) {
 			}
 			o.Count("timeline:"+op.K, 1)
 		case "start":
+			rn.wantUp = true
 			rw.start(rn)
 			if o.V != nil {
 				stopAll(i)
@@ -381,6 +385,15 @@ func c13RestartBody(t *testing.T, s *sim.Scn, o *sim.Outcome) {
 		if !rw.reap(i, op.String()) {
 			stopAll(i)
 			return
+		}
+		for _, x := range rw.nodes {
+			if x.wantUp && !x.up {
+				rw.start(x) // a start that was refused (no peer could serve the genesis header) is tried again
+				if o.V != nil {
+					stopAll(i)
+					return
+				}
+			}
 		}
 		o.Logf("%d %s agg=%d", i, op, agg.sn.Height())
 	}
